@@ -158,7 +158,10 @@ impl ToTokens for DataMatchArm<'_> {
             tokens.append_all(quote!(
                 #name_in_attr => {
                     if let ::darling::export::syn::Meta::List(ref __data) = *__nested {
-                        let __items = ::darling::export::NestedMeta::parse_meta_list(__data.tokens.clone())?;
+                        // A body that is not a list of items is an error about this variant, like every
+                        // other error found inside it.
+                        let __items = ::darling::export::NestedMeta::parse_meta_list(__data.tokens.clone())
+                            .map_err(|__err| ::darling::Error::from(__err).at(#name_in_attr))?;
                         let __items = &__items;
 
                         #declare_errors
